@@ -47,6 +47,22 @@ def truth_table(pairs: List[Tuple[frozenset, object]], var_of: Dict[str, str], r
     return (None, n)
 
 
+def _key_is_timestamp(A: Analysis, fi, key) -> bool:
+    """`key=` orders by the version's timestamp: a lambda, a one-line function of the project, or attrgetter."""
+    if key is None:
+        return False
+    if isinstance(key, ast.Lambda) and len(key.args.args) == 1:
+        return norm(key.body) == "%s.timestamp" % key.args.args[0].arg
+    if isinstance(key, ast.Call) and norm(key.func) in ("operator.attrgetter", "attrgetter") and len(key.args) == 1:
+        return norm(key.args[0]) == "'timestamp'"
+    if isinstance(key, ast.Name):
+        f = A.prog.functions.get("%s.%s" % (fi.module.name, key.id))
+        if f is not None and len(f.params) == 1:
+            body = [b for b in f.node.body if not (isinstance(b, ast.Expr) and isinstance(b.value, ast.Constant))]
+            return len(body) == 1 and isinstance(body[0], ast.Return) and body[0].value is not None and norm(body[0].value) == "%s.timestamp" % f.params[0]
+    return False
+
+
 # --------------------------------------------------------------------------- GIT1
 def _classify(A: Analysis, fi, e: ast.expr) -> str:
     # a closure variable of a nested function is defined in the enclosing function
@@ -202,7 +218,7 @@ def _sel1_comprehension_form(A: Analysis, rep, fi, g, ctx, rets) -> bool:
     if len(fb) == 1:
         c = fb[0].ast.value
         key = A.kw(c, "key")
-        ok_d = len(c.args) == 1 and norm(c.args[0]) == nul_l and key is not None and isinstance(key, ast.Lambda) and norm(key.body) == "%s.timestamp" % key.args.args[0].arg
+        ok_d = len(c.args) == 1 and norm(c.args[0]) == nul_l and _key_is_timestamp(A, fi, key)
         gs = A.path_guards(g, g.entry, fb[0], fi)
         evs = {norm(comps[nul_l][2].value.generators[0].iter)}
         ok_g = bool(gs) and all(any(("eq(len(%s),len(%s))" % tuple(sorted([ev, nul_l])), True) in cj for ev in evs) and ("empty(%s)" % nul_l, False) in cj and ("empty(%s)" % anc_l, True) in cj for cj in gs)
@@ -346,7 +362,7 @@ def rule_sel1(A: Analysis, rep):
     if len(fb) == 1:
         c = fb[0].ast.value
         key = A.kw(c, "key")
-        ok_d = len(c.args) == 1 and norm(c.args[0]) == nul_l and key is not None and isinstance(key, ast.Lambda) and norm(key.body) == "%s.timestamp" % key.args.args[0].arg
+        ok_d = len(c.args) == 1 and norm(c.args[0]) == nul_l and _key_is_timestamp(A, fi, key)
         gs = A.path_guards(g, g.entry, fb[0], fi)
         ev = norm(cl.iter)
         need = {("eq(len(%s),len(%s))" % tuple(sorted([ev, nul_l])), True), ("empty(%s)" % nul_l, False), ("empty(%s)" % anc_l, True)}
